@@ -246,12 +246,36 @@ def handleDev (toks : List String) : String :=
     | _ => none
   r.getD "bad-op"
 
+/-- Splits a token list at every `;;`. -/
+def splitSeq (toks : List String) : List (List String) :=
+  let (cur, acc) := toks.foldl
+    (fun (st : List String × List (List String)) t =>
+      if t == ";;" then ([], st.1.reverse :: st.2) else (t :: st.1, st.2)) ([], [])
+  (cur.reverse :: acc).reverse
+
+/-- `reuse <op> ;; <op> …`: the calls are made one after the other on the same data set handles,
+the values behind the handles being replaced in between.  A handle carries no state of its own in
+the model of the layer (`Data` is the sequence it denotes at the time of the call), so each step
+is predicted like the call alone; a step the model declines makes the whole line a `skip`. -/
+def handleReuse (rest : List String) : String :=
+  let segs := splitSeq rest
+  if segs.length < 2 || segs.length > 8 then "bad-op"
+  else if segs.any (fun s => s.head? == some "strerror" || s.head? == some "reuse" || s.head? == some "rel") then "bad-op"
+  else
+    let outs := segs.map handleDev
+    if outs.any (· == "bad-op") then "bad-op"
+    else match outs.find? (fun o => o.startsWith "skip") with
+      | some o => o
+      | none => " ;; ".intercalate outs
+
 /-- `rel <op>`: the same call through the release build of the library.  The layer is the
 same code, so is the prediction — except where the (dev-profile) reference panics: without
 overflow checks and debug assertions the release library need not panic there, and all the
 property requires is that the call comes back (`survived`). -/
 def handle (toks : List String) : String :=
   match toks with
+  | "rel" :: "reuse" :: _ => "bad-op"
+  | "reuse" :: rest => handleReuse rest
   | "rel" :: rest =>
     let r := handleDev rest
     if r == "bad-op" then r
